@@ -305,6 +305,21 @@ func (r *Replica) MaxLTXFileInfo(ctx context.Context, level int) (info ltx.FileI
 	return info, itr.Close()
 }
 
+// maxTXID returns the highest TXID held by the replica at any level.
+func (r *Replica) maxTXID(ctx context.Context) (ltx.TXID, error) {
+	var maxTXID ltx.TXID
+	for level := 0; level <= SnapshotLevel; level++ {
+		info, err := r.MaxLTXFileInfo(ctx, level)
+		if err != nil {
+			return 0, err
+		}
+		if info.MaxTXID > maxTXID {
+			maxTXID = info.MaxTXID
+		}
+	}
+	return maxTXID, nil
+}
+
 // Pos returns the current replicated position.
 // Returns a zero value if the current position cannot be determined.
 func (r *Replica) Pos() ltx.Pos {
@@ -659,8 +674,16 @@ func (r *Replica) Restore(ctx context.Context, opt RestoreOptions) (err error) {
 				if latestSnapshot.MinTXID > txid {
 					return fmt.Errorf("cannot resume follow mode: saved TXID %s is behind the earliest snapshot (min TXID %s); replica history has been pruned -- delete %s and %s-txid to re-restore", txid, latestSnapshot.MinTXID, opt.OutputPath, opt.OutputPath)
 				}
-				if txid > latestSnapshot.MaxTXID {
-					return fmt.Errorf("cannot resume follow mode: saved TXID %s is ahead of latest snapshot (max TXID %s); delete %s and %s-txid to re-restore", txid, latestSnapshot.MaxTXID, opt.OutputPath, opt.OutputPath)
+
+				// A follower is normally ahead of the latest snapshot since
+				// snapshots are infrequent. It must not be ahead of every
+				// file the replica holds, though.
+				maxTXID, err := r.maxTXID(ctx)
+				if err != nil {
+					return fmt.Errorf("cannot validate saved TXID for crash recovery: %w", err)
+				}
+				if txid > maxTXID {
+					return fmt.Errorf("cannot resume follow mode: saved TXID %s is ahead of the replica (max TXID %s); delete %s and %s-txid to re-restore", txid, maxTXID, opt.OutputPath, opt.OutputPath)
 				}
 			}
 
